@@ -14,7 +14,7 @@ import universe
 import world
 
 INFO = {
-    'proof_files': ['Proofs/TotalityProofs.v'],
+    'proof_files': ['Proofs/TotalityProofs.v', 'Proofs/EofCloses.v'],
     'assumptions': [
         'PARTIAL: the theorem side covers the exception sources the model contains (matcher.parse raises nothing but RuntimeError; the log pipeline handles every exception of decoding/resolving; every connection opened by the log backend is closed at end of input); an exception source that is not in the model is not covered by it',
         'that gap is what the malformed-stream exploration looks for: arbitrary bytes (mutated valid logs, truncation, undecodable bytes, huge numbers, id 0, lone ESC) through the same open()/into_sink path main.py uses and through main.py as a process in file, pipe and run mode; arbitrary matcher text (grammar, mutations, arbitrary Unicode) parsed, simplified, evaluated on a message universe and printed; arbitrary printable command lines against random session states',
